@@ -122,6 +122,45 @@ Definition deleted (sel : selector) (leave : list (bytes * list bytes)) (e : byt
                           (andb (negb (mem_bytes (snd e) (snd ln))) (fst (sel (desc (fst e) (snd e)) false))))
           leave.
 
+(* ---- for which directories does leaveDir (hence --delete) run?  specification side ---- *)
+Definition t_isdir (t : tree) := match t with Node _ d _ => d end.
+Definition sel_any (sel : selector) (l : list (bytes * bool)) : bool :=
+  existsb (fun pd => fst (sel (fst pd) (snd pd))) l.
+
+(* prune-safe filters (include, no filter): the directories that are selected themselves or hold a selected
+   entry somewhere below; no pruning involved *)
+Fixpoint leave_spec_node (sel : selector) (loc : bytes) (n : tree) : list (bytes * list bytes) :=
+  match n with
+  | Node name isdir kids =>
+      let p := desc loc name in
+      if isdir then
+        (fix go (l : list tree) := match l with [] => [] | k :: r => leave_spec_node sel p k ++ go r end) kids
+        ++ (if orb (fst (sel p true)) (sel_any sel (paths_list p kids)) then [(p, map t_name kids)] else [])
+      else []
+  end.
+Fixpoint leave_spec_list (sel : selector) (loc : bytes) (l : list tree) : list (bytes * list bytes) :=
+  match l with [] => [] | k :: r => leave_spec_node sel loc k ++ leave_spec_list sel loc r end.
+Definition leave_spec_root (sel : selector) (top : list tree) : list (bytes * list bytes) :=
+  leave_spec_list sel [] top ++ (if sel_any sel (paths_list [] top) then [([], map t_name top)] else []).
+
+(* exclude filters: exactly the selected directories all of whose ancestors are selected; the root when one of
+   its children is selected *)
+Fixpoint leave_excl_node (sel : selector) (loc : bytes) (n : tree) : list (bytes * list bytes) :=
+  match n with
+  | Node name isdir kids =>
+      let p := desc loc name in
+      if andb isdir (fst (sel p true)) then
+        (fix go (l : list tree) := match l with [] => [] | k :: r => leave_excl_node sel p k ++ go r end) kids
+        ++ [(p, map t_name kids)]
+      else []
+  end.
+Fixpoint leave_excl_list (sel : selector) (loc : bytes) (l : list tree) : list (bytes * list bytes) :=
+  match l with [] => [] | k :: r => leave_excl_node sel loc k ++ leave_excl_list sel loc r end.
+Definition top_any (sel : selector) (loc : bytes) (l : list tree) : bool :=
+  existsb (fun k => fst (sel (desc loc (t_name k)) (t_isdir k))) l.
+Definition leave_excl_root (sel : selector) (top : list tree) : list (bytes * list bytes) :=
+  leave_excl_list sel [] top ++ (if top_any sel [] top then [([], map t_name top)] else []).
+
 (* ---- final state of the target directory ---- *)
 (* all proper ancestors of a location, each as a location ("/a/b/c" -> "/a", "/a/b") *)
 Fixpoint prefixes_at (acc : bytes) (rest : bytes) : list bytes :=
@@ -139,15 +178,17 @@ Definition final_state (sel : selector) (delete : bool) (top : list tree) (extra
      ++ map (fun e => desc (fst e) (snd e)) kept
      ++ flat_map (fun e => fst e :: ancestors (fst e)) extras.
 
-Definition spec_final_w (written : list (bytes * bool)) (sel : selector) (delete : bool) (top : list tree) (extras : list (bytes * bytes)) : list bytes :=
+Definition spec_final_w (written : list (bytes * bool)) (leave : list (bytes * list bytes)) (sel : selector)
+    (delete : bool) (extras : list (bytes * bytes)) : list bytes :=
   let wr := map fst written in
-  let w := walk_root sel top in
-  let kept := filter (fun e => negb (andb delete (deleted sel (w_leave w) e))) extras in
+  let kept := filter (fun e => negb (andb delete (deleted sel leave e))) extras in
   wr ++ flat_map ancestors wr
      ++ map (fun e => desc (fst e) (snd e)) kept
      ++ flat_map (fun e => fst e :: ancestors (fst e)) extras.
 Definition spec_final (sel : selector) (delete : bool) (top : list tree) (extras : list (bytes * bytes)) : list bytes :=
-  spec_final_w (spec_written sel top) sel delete top extras.
+  spec_final_w (spec_written sel top) (leave_spec_root sel top) sel delete extras.
+Definition spec_final_excl (sel : selector) (delete : bool) (top : list tree) (extras : list (bytes * bytes)) : list bytes :=
+  spec_final_w (spec_written_excl sel top) (leave_excl_root sel top) sel delete extras.
 
 (* ---- cases ---- *)
 Inductive mode := MAll | MInclude | MExclude.
@@ -175,7 +216,7 @@ Definition set_eq (a b : list bytes) : bool := andb (subset a b) (subset b a).
    below selected directories (negated patterns cannot re-include below an excluded directory) *)
 Definition spec_of (c : case) : list bytes :=
   match c_mode c with
-  | MExclude => spec_final_w (spec_written_excl (sel_of c) (c_tree c)) (sel_of c) (c_delete c) (c_tree c) (c_extras c)
+  | MExclude => spec_final_excl (sel_of c) (c_delete c) (c_tree c) (c_extras c)
   | _ => spec_final (sel_of c) (c_delete c) (c_tree c) (c_extras c)
   end.
 
